@@ -606,7 +606,7 @@ func runExt(c *core.Ctx, r *runner, target, W int, feedCFG func() bool) {
 	}
 	// classes where range arithmetic is most delicate go first, so that a run that is cut short by
 	// the budget on a busy machine has seen them
-	first := []string{"fixWhitespace-matters:rule-level", "inner-part-ends-in-empty-symbol", "trailing-empty-symbol:annotated", "leading-empty-symbol", "order:nested-arrow-left-of-annotated-Y", "arrow:nested/d2", "arrow:list+", "arrow:empty-nested", "arrow:nested/nullable"}
+	first := []string{"fixWhitespace-matters:rule-level", "family:same-element-extracted-twice", "inner-part-ends-in-empty-symbol", "trailing-empty-symbol:annotated", "leading-empty-symbol", "order:nested-arrow-left-of-annotated-Y", "arrow:nested/d2", "arrow:list+", "arrow:empty-nested", "arrow:nested/nullable"}
 	var ordered []string
 	for _, f := range first {
 		if _, ok := byClass[f]; ok {
@@ -627,6 +627,9 @@ func runExt(c *core.Ctx, r *runner, target, W int, feedCFG func() bool) {
 	// next returns the next in-scope grammar of a shape (nil when its labelings are exhausted)
 	next := func(sh *shape) *prepared {
 		labs := labelings(sh.slots)
+		if sh.fixed != nil {
+			labs = sh.fixed
+		}
 		for !sh.done {
 			if sh.nextLabel >= len(labs) {
 				sh.done = true
